@@ -72,6 +72,7 @@ type s2Call struct {
 	nilChan  bool
 	results  []otter.RefreshResult[int, int]
 	gotRes   int
+	resStamp int64
 }
 
 type s2World struct {
@@ -140,7 +141,16 @@ func (l s2Loader) invoke(kind string, keys, olds []int) (map[int]int, int, error
 		for _, k := range sorted {
 			inv.vals[k] = newVal()
 		}
-		inv.vals[100+out.Sel%3] = newVal()
+		// extra results: keys of the key space that were not asked for (they may be cached, absent, or being loaded
+		// by somebody else right now), and sometimes a key nobody ever asks for
+		for k := 0; k < 4; k++ {
+			if _, asked := inv.vals[k]; !asked && (out.Sel>>k)&1 == 1 {
+				inv.vals[k] = newVal()
+			}
+		}
+		if out.Sel&128 != 0 || len(inv.vals) == len(sorted) {
+			inv.vals[100+out.Sel%3] = newVal()
+		}
 	default:
 		for _, k := range sorted {
 			inv.vals[k] = newVal()
@@ -285,6 +295,7 @@ func runS2(c s2Case, prop string, perStep func(w *s2World, cache *otter.Cache[in
 									w.mu.Lock()
 									cl.results = append(cl.results, r)
 									cl.gotRes++
+									cl.resStamp = w.tick()
 									w.mu.Unlock()
 								case <-quit:
 								}
@@ -302,6 +313,7 @@ func runS2(c s2Case, prop string, perStep func(w *s2World, cache *otter.Cache[in
 									w.mu.Lock()
 									cl.results = r
 									cl.gotRes++
+									cl.resStamp = w.tick()
 									w.mu.Unlock()
 								case <-quit:
 								}
@@ -455,13 +467,15 @@ func c08Final(w *s2World, cache *otter.Cache[int, int]) error {
 			if supplied[k] == nil {
 				supplied[k] = map[int]bool{}
 			}
-			if inv.vals != nil {
-				if v, ok := inv.vals[k]; ok {
-					supplied[k][v] = true
-				}
-			} else if inv.err == nil || inv.val != 0 {
+			if inv.vals == nil && (inv.err == nil || inv.val != 0) {
 				supplied[k][inv.val] = true
 			}
+		}
+		for k, v := range inv.vals { // includes extra results
+			if supplied[k] == nil {
+				supplied[k] = map[int]bool{}
+			}
+			supplied[k][v] = true
 		}
 	}
 	overlapping := func(cl *s2Call, k int) []*s2Inv {
@@ -514,8 +528,46 @@ func c08Final(w *s2World, cache *otter.Cache[int, int]) error {
 				return fmt.Errorf("Get(%d) returned %d, which no loader invocation supplied for that key and nobody wrote", k, cl.val)
 			}
 		case "bulkget":
-			if cl.panicked != nil || cl.err != nil {
+			if cl.panicked != nil {
+				ok := false
+				for _, k := range cl.keys {
+					for _, inv := range overlapping(cl, k) {
+						if inv.panics {
+							ok = true
+						}
+					}
+				}
+				if !ok {
+					return fmt.Errorf("BulkGet(%v) panicked (%v) although no overlapping loader invocation for its keys panicked", cl.keys, firstLineOf(cl.panicked))
+				}
 				continue
+			}
+			if cl.err != nil {
+				// an error is reported only when an invocation this call ran or joined failed; "not found" is not a failure
+				// of a bulk lookup: such keys are simply absent from the result
+				if errors.Is(cl.err, otter.ErrNotFound) {
+					return fmt.Errorf("BulkGet(%v) returned the error %q: keys that are not found must be left out of the result, not reported as a failure", cl.keys, cl.err)
+				}
+				ok := false
+				for _, k := range cl.keys {
+					for _, inv := range overlapping(cl, k) {
+						if inv.err != nil && !errors.Is(inv.err, otter.ErrNotFound) {
+							ok = true
+						}
+					}
+				}
+				if !ok {
+					return fmt.Errorf("BulkGet(%v) returned error %v although no overlapping loader invocation for its keys failed", cl.keys, cl.err)
+				}
+			}
+			asked := map[int]bool{}
+			for _, k := range cl.keys {
+				asked[k] = true
+			}
+			for k := range cl.res {
+				if !asked[k] {
+					return fmt.Errorf("BulkGet(%v) returned key %d, which was not asked for", cl.keys, k)
+				}
 			}
 			for k, v := range cl.res {
 				if !supplied[k][v] && !w.wrote[k][v] {
@@ -537,6 +589,40 @@ func c08Final(w *s2World, cache *otter.Cache[int, int]) error {
 			}
 			if cl.gotRes > 1 {
 				return fmt.Errorf("Refresh(%d) delivered %d results", k, cl.gotRes)
+			}
+			if !cl.nilChan && cl.gotRes == 0 {
+				panicked := false
+				for _, inv := range w.invs { // the reload runs on the executor, after Refresh itself has returned
+					for _, ik := range inv.keys {
+						if ik == k && inv.panics && inv.end > cl.start {
+							panicked = true
+						}
+					}
+				}
+				if !panicked {
+					return fmt.Errorf("Refresh(%d) returned a channel but never delivered a result on it although every loader invocation finished and none panicked", k)
+				}
+			}
+			for _, r := range cl.results {
+				if r.Err != nil {
+					continue
+				}
+				ok := false
+				for _, inv := range w.invs {
+					if inv.end == 0 || inv.end > cl.resStamp {
+						continue
+					}
+					if inv.vals != nil {
+						if v, has := inv.vals[k]; has && v == r.Value {
+							ok = true
+						}
+					} else if inv.err == nil && inv.val == r.Value && len(inv.keys) == 1 && inv.keys[0] == k {
+						ok = true
+					}
+				}
+				if !ok {
+					return fmt.Errorf("Refresh(%d) delivered value %d before any loader invocation that supplies it had returned", k, r.Value)
+				}
 			}
 		}
 	}
@@ -737,4 +823,61 @@ func TestC11_S2InFlight(t *testing.T) {
 			return o
 		},
 	})
+}
+
+// The result clauses of C10 (what Get/BulkGet hand to callers that joined somebody else's load) and of C11 (what an
+// explicit Refresh delivers on its channel, and when) are judged on the same deterministic world as C08.
+func s2ResultProp(t *testing.T, prop, test, rule string, gen func(t *rapid.T) s2Case, nontrivial func(c s2Case, w *s2World) bool) {
+	s2T = t
+	propMain(t, propSpec[s2Case]{
+		Prop: prop, Test: test, Rule: rule,
+		Assumptions: []string{"determinism is at the granularity of durable blocking points (testing/synctest)",
+			"a panicking reload on the default executor would crash the process: such outcomes are generated only for the harness-owned executor"},
+		Gen: gen,
+		Run: func(c s2Case) outcome {
+			o, w := runS2(c, prop, nil, c08Final)
+			_, o.Classes = c08Classes(c, w)
+			o.NonTrivial = nontrivial(c, w)
+			o.Sig = vh.Sig(fmt.Sprint(c))
+			return o
+		},
+	})
+}
+
+func TestC10_S2Waiters(t *testing.T) {
+	s2ResultProp(t, "C10", "S2Waiters",
+		"scripts of 1-40 actions in a testing/synctest bubble: Get/BulkGet (and Refresh/BulkRefresh) calls over 1-4 keys each in its own goroutine, loader invocations blocked on gates and released with generated outcomes (value, error, ErrNotFound, panic; bulk: full, partial, extra keys inside and outside the key space, empty, error, panic); "+
+			"oracle once everything returned: a Get returns a value some invocation supplied for that key (never a zero value), an error only if an invocation it ran or joined failed, ErrNotFound only if one reported the key missing; a BulkGet returns only keys it was asked for with supplied values, leaves not-found keys out instead of failing, "+
+			"and fails only if an invocation it ran or joined failed with a real error; a panic reaches only callers that overlapped a panicking invocation; non-trivial = a BulkGet or Get overlapped another call on the same key",
+		func(t *rapid.T) s2Case { return genS2Case(t, false) },
+		func(c s2Case, w *s2World) bool { nt, _ := c08Classes(c, w); return nt })
+}
+
+func TestC11_S2RefreshResults(t *testing.T) {
+	s2ResultProp(t, "C11", "S2RefreshResults",
+		"scripts of 1-40 actions in a testing/synctest bubble on refresh-enabled caches: Refresh/BulkRefresh/Get/BulkGet calls over 1-4 keys, loader invocations blocked on gates and released with generated outcomes, clock advanced past the refresh time; "+
+			"oracle once everything returned: every Refresh call that got a channel receives exactly one result on it (none only if its reload panicked), for its own key, and a nil-error result carries a value that a loader invocation for that key had already returned when the result was delivered "+
+			"(a Refresh that joins a load or reload in flight waits for it); non-trivial = a Refresh overlapped another call on the same key",
+		func(t *rapid.T) s2Case {
+			c := genS2Case(t, false)
+			c.Refresh = true
+			return c
+		},
+		func(c s2Case, w *s2World) bool {
+			for i, a := range w.calls {
+				for _, b := range w.calls[i+1:] {
+					if a.kind != "refresh" && b.kind != "refresh" {
+						continue
+					}
+					for _, ka := range a.keys {
+						for _, kb := range b.keys {
+							if ka == kb {
+								return true
+							}
+						}
+					}
+				}
+			}
+			return false
+		})
 }
